@@ -29,6 +29,7 @@ EV_PROP = {
 DIAG_PROP = {
     "dependency-not-finished": ("C13",), "launched-twice": ("C13",),
     "run-after-failure-or-cancel": ("C14",), "run-of-skipped": ("C13", "C14"), "wrong-kind": ("C14",),
+    "run-after-failed-dependency": ("C13", "C14"), "skipped-without-failure": ("C14", "C16"),
     "serial-overlap": ("C15",),
     "not-running": ("C16",), "unknown-vertex": ("C16",),
 }
